@@ -482,25 +482,33 @@ theorem getitem_index_error (ci : ClassInfo) (w : World) (i : Int)
   unfold getItem
   cases ci.family <;> simp [pyIndex_out_of_range w.members i h]
 
-/-- `group[a:b]` (Observer0DGroup family) -/
-theorem getitem_slice (ci : ClassInfo) (hf : ci.family = .observer0D) (w : World) (a b : Nat) (hab : a ≤ b)
+/-- `group[a:b]`, both families, for every class whose `__getitem__` hands slices to the member container -/
+theorem getitem_slice (ci : ClassInfo) (hs : ci.sliceKeys = true) (w : World) (a b : Nat) (hab : a ≤ b)
     (hb : b ≤ w.members.length) :
     getItem ci w (.slice (some (a : Int)) (some (b : Int)) none) = .objs ((w.members.drop a).take (b - a)) := by
-  simp [getItem, hf, pySlice_simple w.members a b hab hb]
+  unfold getItem
+  cases ci.family <;> simp [hs, pySlice_simple w.members a b hab hb]
 
 theorem getitem_slice_members (ci : ClassInfo) (w : World) (a b c : Option Int) (us : List Nat)
     (h : getItem ci w (.slice a b c) = .objs us) : ∀ u ∈ us, u ∈ w.members := by
   unfold getItem at h
-  cases hf : ci.family with
-  | observer0D =>
-    simp only [hf] at h
+  cases hs : ci.sliceKeys with
+  | false => cases hf : ci.family <;> simp [hf, hs] at h
+  | true =>
     cases hp : pySlice w.members a b c with
-    | none => simp [hp] at h
+    | none => cases hf : ci.family <;> simp [hf, hs, hp] at h
     | some us' =>
-      simp only [hp, Out.objs.injEq] at h
-      subst h
+      have e : us' = us := by
+        cases hf : ci.family <;> simpa [hf, hs, hp] using h
+      subst e
       exact pySlice_members _ _ _ _ _ hp
-  | bolometer => simp [hf] at h
+
+/-- a class whose `__getitem__` does not accept slices answers every slice with `TypeError` (what a failing
+`classes_accept_slices` means) -/
+theorem getitem_slice_refused (ci : ClassInfo) (hs : ci.sliceKeys = false) (w : World) (a b c : Option Int) :
+    getItem ci w (.slice a b c) = .err .typeError := by
+  unfold getItem
+  cases ci.family <;> simp [hs]
 
 /-- `group[name]`: a member whose name is unique in the group is returned (both families) -/
 theorem getitem_unique_name (ci : ClassInfo) (w : World) (x u : Nat) (hnd : w.members.Nodup) (hu : u ∈ w.members)
@@ -631,6 +639,9 @@ example : (addObserver exClass exWorld 9).1.members = [1, 2, 3, 9] ∧ getItem e
 example : getItem exClass exWorld (.slice (some 1) (some 3) none) = .objs [2, 3] ∧
     getItem exClass exWorld (.slice none none (some (-1))) = .objs [3, 2, 1] ∧
     getItem exClass exWorld (.str 2) = .objs [2] ∧ getItem exClass exWorld (.int 3) = .err .indexError := by decide
+example : getItem { exClass with family := .bolometer } exWorld (.slice (some 0) (some 2) none) = .objs [1, 2] ∧
+    getItem { exClass with family := .bolometer, sliceKeys := false } exWorld (.slice (some 0) (some 2) none) = .err .typeError := by
+  decide
 
 end Examples
 
